@@ -56,6 +56,14 @@ class Servlet(ABC):
     def start(self, q_in, q_out) -> None:
         raise NotImplementedError
 
+    def _stop_workers_started_so_far(self, q_in):
+        # Used by the simple servlets when a worker fails to initialize in `start`.
+        if self._workers:
+            q_in.put(None)
+            for w in self._workers:
+                w.join()
+            self._workers = []
+
     @abstractmethod
     def stop(self) -> None:
         """
@@ -122,6 +130,13 @@ class Servlet(ABC):
             'type': self.__class__.__name__,
             'children': zz,
         }
+
+
+def _stop_started_members(servlets):
+    # Used by compound servlets when a member fails to start:
+    # stop the members that have already been started.
+    for s in servlets:
+        s.stop()
 
 
 class ProcessServlet(Servlet):
@@ -225,6 +240,9 @@ class ProcessServlet(Servlet):
             p.start()
             name = q_out.get()
             if name is None:
+                # This worker failed to initialize. Stop the workers that have
+                # already been started so that a failed `start` leaves nothing running.
+                self._stop_workers_started_so_far(q_in)
                 p.join()  # this will raise exception b/c worker __init__ failed
             self._workers.append(p)
             logger.debug('   ... worker <%s> is ready', name)
@@ -343,6 +361,9 @@ class ThreadServlet(Servlet):
             w.start()
             name = q_out.get()
             if name is None:
+                # This worker failed to initialize. Stop the workers that have
+                # already been started so that a failed `start` leaves nothing running.
+                self._stop_workers_started_so_far(q_in)
                 w.join()  # this will raise exception b/c worker __init__ failed
             self._workers.append(w)
             logger.debug('   ... worker <%s> is ready', name)
@@ -432,7 +453,12 @@ class SequentialServlet(Servlet):
                 self._qs.append(q2)
             else:
                 q2 = q_out
-            s.start(q1, q2)
+            try:
+                s.start(q1, q2)
+            except BaseException:
+                _stop_started_members(self._servlets[:i])
+                self._qs = []
+                raise
             q1 = q2
         self._q_in = q_in
         self._q_out = q_out
@@ -529,7 +555,12 @@ class EnsembleServlet(Servlet):
                 if s.output_queue_type == 'thread'
                 else _SimpleProcessQueue()
             )
-            s.start(q1, q2)
+            try:
+                s.start(q1, q2)
+            except BaseException:
+                _stop_started_members(self._servlets[: len(self._qins)])
+                self._reset()
+                raise
             self._qins.append(q1)
             self._qouts.append(q2)
         t = Thread(target=self._dequeue, name=f'{self.__class__.__name__}._dequeue')
@@ -703,7 +734,12 @@ class SwitchServlet(Servlet):
                 if s.input_queue_type == 'thread'
                 else _SimpleProcessQueue()
             )
-            s.start(q1, q_out)
+            try:
+                s.start(q1, q_out)
+            except BaseException:
+                _stop_started_members(self._servlets[: len(self._qins)])
+                self._reset()
+                raise
             self._qins.append(q1)
 
         self._thread_enqueue = Thread(
